@@ -46,11 +46,24 @@ TEXT["C20"] = dict(ref="DESIGN.md 4 C20", technique="TLC model checking + TLC-ge
     "ids never observed before are bound when get_events first shows them.",
     note=NOTE + "reverse+limit combinations are not generated (statement leaves open which end is cut); callers are in-process peers, the serialised encodings of filter arguments belong to the C15 transport family.")
 
+TEXT["C10"] = dict(ref="DESIGN.md 4 C10", technique="TLC model checking (action property) + TLC-generated scenarios with table-driven authorizers replayed on the router + TLC trace validation",
+    level=TL + "For C10 the realm is configured with a table-driven Authorizer (allow/deny/fail/rewrite per message type and sender class, with and without "
+    "RequireLocalAuthz); the specification's gate decides per message whether the action or the refusal (state unchanged, one ERROR of the request's type "
+    "and id, nothing for an unacknowledged PUBLISH) applies; leg 1 checks that as an action property; all message classes are compared so that a refused "
+    "request causing any event, invocation or meta event is seen.",
+    note=NOTE + "Remote sessions are in-process peers reporting IsLocal()=false with ticket authentication. Authorizers that mutate the session are not generated.")
+TEXT["C12"] = dict(ref="DESIGN.md 4 C12", technique="TLC model checking + TLC-generated scenarios (disclosure options x recipient features, poisoning recipients) replayed on the router + TLC trace validation",
+    level=TL + "For C12 the full details of every EVENT and INVOCATION are compared (class details), recipients with every feature combination are "
+    "co-subscribed exactly/by prefix/by wildcard, in-process recipients overwrite details and payload of everything they received (so shared memory "
+    "shows up at co-recipients, in later deliveries and in retained history), network-style sessions carry transport.auth data that must not appear in "
+    "on_join or wamp.session.get.",
+    note=NOTE + "A trusted originator asking disclose_me in a non-disclosing realm is treated as the code does (refused); the statement leaves it open.")
+
 NOT_APPLICABLE = {}
 
 ENGINES = [
     {"name": "core", "path": "/verif/tools/families.py run_core; spec/Core.tla MC.tla Gen.tla Trace.tla; harness/exec.go",
-     "serves_properties": ["C01", "C02", "C03", "C05", "C13", "C18", "C20"],
+     "serves_properties": ["C01", "C02", "C03", "C05", "C10", "C12", "C13", "C18", "C20"],
      "kind_free_text": "TLC model checking, TLC scenario generation, replay into the real router under synctest, TLC trace validation"},
 ]
 
